@@ -5,15 +5,13 @@ from ..common import Ctx, P_HOOKS
 from ..pymodel import show
 from ..sites import SiteAnalysis
 
-_cache: dict = {}
-
-
 def analysis(ctx: Ctx) -> SiteAnalysis:
-    key = id(ctx.src)
-    if key not in _cache:
-        _cache.clear()
-        _cache[key] = SiteAnalysis(ctx.src).run()
-    return _cache[key]
+    # cached on the Sources object itself (never keyed by id(): ids are reused after garbage collection)
+    sa = getattr(ctx.src, "_site_analysis", None)
+    if sa is None:
+        sa = SiteAnalysis(ctx.src).run()
+        ctx.src._site_analysis = sa
+    return sa
 
 
 def floors(ctx: Ctx, sa: SiteAnalysis):
